@@ -79,6 +79,23 @@ pub fn split_target(top: &Path, root: &Root, path: &[u8]) -> Split {
     }
 }
 
+/// (dev, ino) of the entry `name` (never followed) in the kernel's in-root resolution of the rest of `path`
+fn nofollow_ident(root: &Root, path: &[u8]) -> Option<(u64, u64)> {
+    let (dir, name): (&[u8], &[u8]) = match path.iter().rposition(|c| *c == b'/') {
+        Some(i) => (&path[..i], &path[i + 1..]),
+        None => (b"", path),
+    };
+    let dirq: Vec<u8> = if dir.is_empty() { b".".to_vec() } else { dir.to_vec() };
+    let fd = ops::kernel_openat2(root.as_fd(), &dirq, libc::O_PATH as u64, 0).ok()?;
+    let cname = std::ffi::CString::new(name).ok()?;
+    let mut st: libc::stat = unsafe { std::mem::zeroed() };
+    let r = unsafe { libc::fstatat(fd.as_raw_fd(), cname.as_ptr(), &mut st, libc::AT_SYMLINK_NOFOLLOW) };
+    if r != 0 {
+        return None;
+    }
+    Some((st.st_dev, st.st_ino))
+}
+
 fn subtree_keys(s: &Snap, key: &[u8]) -> Vec<Vec<u8>> {
     let mut pre = key.to_vec();
     pre.push(b'/');
@@ -207,6 +224,28 @@ pub fn judge(
                 None => "effect ok created".into(),
                 Some(d) => format!("effect DIFF after create: {d}"),
             }
+        }
+        Op::CreateFile { flags, path, .. } if flags & libc::O_PATH != 0 => {
+            // O_PATH makes the kernel ignore O_CREAT, O_EXCL and O_TRUNC: the corresponding *at call is a no-follow
+            // O_PATH lookup of the final name in the in-root parent.  Nothing changes, and a descriptor that comes back
+            // is the entry of that name (whether a '.' or '..' name may come back at all is the escape oracle's business:
+            // the `loc` line)
+            if let Some(d) = compare(before, after, None) {
+                return format!("effect DIFF O_PATH create_file changed the tree: {d}");
+            }
+            if let Outcome::Fd(fd) = outcome {
+                if matches!(pre.target, Split::MustFail("trailing slash") | Split::MustFail("empty path")) {
+                    return "effect DIFF success although the path must be refused".into();
+                }
+                let mut st: libc::stat = unsafe { std::mem::zeroed() };
+                unsafe { libc::fstat(fd.as_raw_fd(), &mut st) };
+                return match nofollow_ident(root, path) {
+                    Some((dev, ino)) if dev == st.st_dev && ino == st.st_ino => "effect ok create_file o_path".into(),
+                    Some(_) => "effect DIFF O_PATH create_file returned a descriptor of another file".into(),
+                    None => "effect DIFF O_PATH create_file succeeded although (in-root parent, name) does not exist".into(),
+                };
+            }
+            "effect ok unchanged".into()
         }
         Op::CreateFile { flags, .. } => {
             if !ok {
